@@ -1,7 +1,7 @@
 """C08 — read/write mode keeps independent, correct read and write positions."""
 import os, struct
 from .. import scripts as S, formats, geometry as G, handlecheck as HC, abscheck, kernels as K
-from ..core import Violation, VERIF
+from ..core import Violation, VERIF, modules_for
 
 DIG = K.TY_DIGITS
 
@@ -206,7 +206,7 @@ def run(ctx):
     if getattr(ctx, "replay", None):
         return ctx.replay_script(ctx.replay)
     quick = ctx.tier == "quick"
-    failed = ctx.lean_stage(["SfProps.C08", "SfProps.C08Refine"])
+    failed = ctx.lean_stage(modules_for("C08"))
     found = False
     ctx.run_regressions()
     found = bool(ctx.violations)
